@@ -4,8 +4,9 @@
    and of the parts of net/url (go1.24.0) and goxmldsig v1.5.0 they use:
      url.Values (Add / Get / Encode), url.ParseQuery as used by URL.Query(), the tail of URL.String(),
      SigningContext.SetSignatureMethod / GetSignatureMethodIdentifier.
-   Oracles (inputs): url.Parse's split of the IdP URL into (text before the query, raw query,
-   escaped fragment); etree's serialisation of the document; the DEFLATE bytes; the signer.
+   Inputs: url.Parse's split of the IdP URL into (text before the query, raw query, escaped fragment) —
+   an argument here, computed by the model of url.Parse / URL.String in Url.v ([Url.url_parse_split]);
+   oracles: etree's serialisation of the document; the DEFLATE bytes; the signer.
    No proofs here (P_Redirect.v). *)
 From V Require Import Base Escape SchemaDefs ConcDefs Generated.
 Local Open Scope list_scope.
